@@ -311,6 +311,9 @@ def make_jobs(Job, tier, seed, feature_sets, engine_keys, canary=True, light=Fal
         if tier == 'thorough' and not light and ek == engine_keys[0]:
             fam = ['sym'] + fam4[1:]
             jobs.append(Job('%s:n4-f0' % fk, mod, 'query_job', {'n': 4, 'fam': fam, 'focus': 0, 'features': fl}, engine_key=ek, stop_after_violations=40))
+        if not light:
+            # four variables, branches over interleaved variable sets (supports that are not intervals of each other)
+            jobs.append(Job('%s:n4-split' % fk, mod, 'query_job', {'n': 4, 'fam': ['split', [0] * 16, [1] * 16, [0, 1] * 8], 'focus': 0, 'features': fl}, engine_key=ek, stop_after_violations=40))
         jobs.append(Job('%s:counts-kernel' % fk, mod, 'counts_kernel_job', {}, engine_key=ek))
     if canary:
         jobs.append(Job('canary', mod, 'query_job', {'n': 2, 'fam': ['sym', 'sym'], 'focus': 0, 'features': sorted(build.closure(feature_sets[0])), 'canary': True},
